@@ -144,6 +144,25 @@ func verifyFunction(w *World, specs *Specs, tt *TypeTable, fn *ssa.Function, c *
 				panic(r)
 			}
 		}
+		if res.Err == "" {
+			// a hook or site assertion that matched no call site on any path is a contract that no longer binds (the call
+			// was removed or renamed, an ordinal is off, a pattern is misspelt): reported like any other unbound contract
+			var dead []string
+			for _, g := range c.Ghosts {
+				if g.Callee != "@return" && !vc.hookFired["g:"+g.Src] {
+					dead = append(dead, "ghost "+g.Src)
+				}
+			}
+			for _, a := range c.Asserts {
+				if a.Clause != nil && !vc.hookFired["a:"+a.Callee+"#"+fmt.Sprint(a.Ordinal)+":"+a.Clause.Label] {
+					dead = append(dead, "assert/assume at call "+a.Callee+" ["+a.Clause.Label+"]")
+				}
+			}
+			if len(dead) > 0 && vc.paths > 0 {
+				sort.Strings(dead)
+				res.Err = "UNBOUND: call-site hook never fires: " + strings.Join(dead, "; ")
+			}
+		}
 		res.Obls = vc.obls
 		res.Paths = vc.paths
 		for k := range vc.usedTrusted {
